@@ -252,6 +252,7 @@ impl<'m> Driver<'m> {
             if let Some(sh) = &self.shared {
                 sh.begin_op();
             }
+            beat();
             let fired_before = self.shared.as_ref().map(|s| s.n_fired()).unwrap_or(0);
             let r: Result<lexpr::parse::Result<Option<Value>>, Abnormal> = match op {
                 Op::NextValue => guarded(|| parser.next_value()),
